@@ -238,6 +238,61 @@ func TestVerifC13(t *testing.T) {
 		r.Eval("wrap:" + cls + fmt.Sprintf(",idlen=%d,record=%v", len(id), rec != nil))
 	})
 
+	// ---- PAIRS of rare dimensions: a large message (1 MiB and more, where an implementation may take another
+	//      route: streaming, pre-checks, chunking) together with a signature value on the edge of its range
+	//      (s = n-1, 1, 2, with leading zero bytes; r = n-1 for rejected ones). A valid signature with a
+	//      chosen s over e = SM3(ZA || M) is obtained by solving the private key: d = (k - s) / (s + r).
+	{
+		bigMsg := rng.Bytes(1<<22 + 5)
+		za := rng.Bytes(32)
+		for _, ml := range []int{1 << 20, 1<<20 + 1, 1<<20 - 1, 1<<22 + 5, 70000} {
+			msg := bigMsg[:ml]
+			e := ref.SM2E(za, msg)
+			for ti, target := range []*big.Int{new(big.Int).Set(nm1), bi(1), bi(2), new(big.Int).Lsh(bi(1), 200), new(big.Int).Set(nm2), randScalar(rng)} {
+				k := randScalar(rng)
+				x1 := ref.BaseMulFast(k).X
+				rI := ref.ModN(new(big.Int).Add(ref.Int(e), x1))
+				den := ref.ModN(new(big.Int).Add(target, rI))
+				if rI.Sign() == 0 || den.Sign() == 0 {
+					continue
+				}
+				d := ref.ModN(new(big.Int).Mul(new(big.Int).Sub(k, target), ref.InvN(den)))
+				if !ref.ValidPriv(d) {
+					continue
+				}
+				P := ref.BaseMulFast(d)
+				px, py := ref.B32(P.X), ref.B32(P.Y)
+				rB, sB := ref.B32(rI), ref.B32(target)
+				if !ref.SM2Verify(px, py, e, rB, sB) {
+					r.Inconclusive("c13: solved boundary signature is not valid by the model")
+					continue
+				}
+				det := hk.D{"msglen": ml, "s": hk.Hex(sB), "r": hk.Hex(rB), "za": hk.Hex(za), "px": hk.Hex(px), "py": hk.Hex(py), "priv": hk.Hex(ref.B32(d))}
+				okZa, _ := VerifyZa(px, py, za, msg, rB, sB)
+				okH, _ := VerifyHashed(px, py, e, rB, sB)
+				if !okZa || !okH {
+					det["verifyza"], det["verifyhashed"] = okZa, okH
+					r.Violation("VerifyZa-differs-from-VerifyHashed:large-message-with-boundary-signature", det)
+				}
+				r2, s2, err := SignZa(newScript(append(ref.B32(k), rng.Bytes(64)...)), ref.B32(d), za, msg)
+				if err != nil || !bytes.Equal(r2, rB) || !bytes.Equal(s2, sB) {
+					det["signza"] = hexOrNil(r2) + "," + hexOrNil(s2)
+					r.Violation("SignZa-not-standard:large-message-with-boundary-signature", det)
+				}
+				// rejected ones: r = n-1 / s = n-1 with an ordinary partner must be rejected by both, identically
+				for _, bad := range [][2]*big.Int{{nm1, randScalar(rng)}, {randScalar(rng), nm1}, {nI, target}, {target, nI}} {
+					bz, _ := VerifyZa(px, py, za, msg, ref.B32(bad[0]), ref.B32(bad[1]))
+					bh := ref.SM2Verify(px, py, e, ref.B32(bad[0]), ref.B32(bad[1]))
+					if bz != bh {
+						det["bad_r"], det["bad_s"] = bad[0].Text(16), bad[1].Text(16)
+						r.Violation("VerifyZa-differs-from-model:large-message-with-boundary-signature", det)
+					}
+				}
+				r.Eval(fmt.Sprintf("pair:msglen=2^%d,s-class=%d", bitlenInt(ml)-1, ti))
+			}
+		}
+	}
+
 	// ---- call histories on REUSED buffers: the same id / key / message buffers are overwritten in place
 	//      between id-level calls (a server handling one request after another). Every call is compared
 	//      with the model for the contents the buffers hold at that moment.
